@@ -54,7 +54,7 @@ pub struct Exec {
 }
 
 pub struct JoinHandle<T> {
-    id: usize,
+    pub id: usize,
     rx: tokio::sync::oneshot::Receiver<T>,
 }
 
